@@ -96,15 +96,15 @@ CHECKS["C01"] = dict(
     text="Per scheme, a code-shaped Coq model of the comparison (parsing of the version text, shortcuts, loops) and a refinement theorem: on the shape every accepted version "
          "has, the comparison the code computes equals a lexicographic order on an explicit key (padded token lists for deb, components/letter/suffix-chain/revision for "
          "ebuild and alpine, a five-field key for legacy openssl, the string order for generic), which is a total preorder; all five laws of the property and the "
-         "order-independence of sorting are proved once for any total preorder. Schemes with a theorem: generic, legacy openssl, ebuild, alpine, deb, the semver family (semver, nginx, golang, composer) gem, rpm, alpm (within a pkgrel class), openssl and pypi (listed in the evidence); maven, nuget and conan are modelled and compared without an order theorem (maven's order is the listed finding). "
+         "order-independence of sorting are proved once for any total preorder. Schemes with a theorem: generic, legacy openssl, ebuild, alpine, deb, the semver family (semver, nginx, golang, composer), gem, rpm, alpm (within a pkgrel class), openssl, pypi and nuget (on every constructed version); maven and conan are modelled and compared without an order theorem (maven's order is the listed finding; conan's is not transitive across number/word items, the sub-domain the property excludes). "
          "For every version class, modelled or not, the laws are also evaluated on the implementation over triples of near-equal versions (every ordered triple of sliding windows "
          "of the near-pair stream) and random triples, with the two excluded sub-domains filtered; modelled classes are additionally compared with their model (operators, key order, "
          "theorem domain).",
     ref="5, 6 (C01)", technique="Coq proof (refinement of the code-shaped comparator to a key order; TPO transfer) for the modelled schemes + law evaluation on triples for all classes",
-    note="PARTIAL in breadth: rpm, alpm, semver family, pypi, gem, nuget, conan, maven, openssl(3.x) have no Coq model yet and are covered by direct law evaluation only. Known finding: maven order is intransitive outside the documented grammar (known_findings.json).")
+    note="All 17 version classes are modelled; 15 have an order theorem. PARTIAL in breadth: maven (finding) and conan are covered by model correspondence and law evaluation only. Known finding: maven order is intransitive outside the documented grammar (known_findings.json).")
 CHECKS["C02"] = dict(
     text="Theorems: any six operators derived from one comparison satisfy the agreement laws; the six vers comparators, through the comparator table transcribed from /repo, accept "
-         "exactly what the operators say; and per modelled scheme (generic, legacy openssl, ebuild/alpine, deb) the code-shaped model of the six Python operators (which methods the class "
+         "exactly what the operators say; and per modelled scheme (all 17 classes) the code-shaped model of the six Python operators (which methods the class "
          "really defines and how attrs/tuple comparison dispatch them) equals the operators of the scheme's key order. For every version class the laws and the single-comparator "
          "constraints are evaluated on the implementation over neighbour pairs, random pairs and pairs two edits apart whose first edit preserves equality.",
     ref="6 (C02)", technique="Coq proof (operator models vs the order they refine to) for the modelled schemes + exhaustive-by-stream law evaluation on pairs for all classes",
@@ -113,22 +113,22 @@ CHECKS["C02"] = dict(
 CHECKS["C12"] = dict(
     text="Finite theorems re-proved on every run against tables regenerated from the live classes: every version class is hashable (its effective __hash__ is not None, found by "
          "walking the MRO) and frozen (attribute assignment raises, tabulated by execution); VersionConstraint, VersionRange and Version hash exactly the attrs fields that == "
-         "compares and their effective __eq__/__hash__ are the attrs-generated ones. Per scheme with a model, == implies equality of the hashed key (generic, legacy openssl). "
-         "On the implementation, for every version class: whenever two versions are == (neighbour, random and equal-variant pairs) hash, set and dict must agree, also for "
+         "compares and their effective __eq__/__hash__ are the attrs-generated ones. Per scheme with a model, == implies equality of the hashed key (every class but maven). "
+         "On the implementation, for every version class: whenever two versions are == (neighbour, random and equal-variant pairs, and the same version written with the digits of another script) hash, set and dict must agree, also for "
          "constraints and ranges built on them; attribute assignment is attempted on every object kind; and state snapshots of all arguments are compared before and after a "
          "battery of public operations.",
     ref="6 (C12), 10", technique="Coq proof by computation over translator-generated class tables + scheme-level eq/hash theorems; runtime monitoring for the mutation clause",
     note="PARTIAL: 'no public operation changes its arguments' is about the CPython heap and cannot be a theorem of a functional model; it is monitored at run time (snapshots), named as such. "
-         "Hash/eq theorems exist for every modelled class except maven (legacy openssl, semver family, gem, rpm, deb, alpm, ebuild/alpine, pypi, openssl); for maven (finding), nuget and conan agreement is checked on the implementation and against their models. Known finding: maven == is not an equivalence where a sub-list with an empty first item faces a missing item.")
+         "Hash/eq theorems exist for every modelled class except maven (legacy openssl, semver family, gem, rpm, deb, alpm, ebuild/alpine, pypi, openssl, nuget, conan); for maven (finding) agreement is checked on the implementation and against its model. Known finding: maven == is not an equivalence where a sub-list with an empty first item faces a missing item.")
 
 CHECKS["C11"] = dict(
     text="Per modelled scheme the constructor is the code's `normalize; is_valid; build_value`, with the validity check and the builder as two separate code-shaped models. Proved: "
-         "the validity check says 'valid' exactly when construction succeeds and a failed construction is the invalid-version error (generic, ebuild, alpine, legacy openssl, deb); "
-         "the print/re-construct round trip for generic, ebuild and alpine (normalisation is idempotent). For every version class the implementation is checked on the documented-"
+         "the validity check says 'valid' exactly when construction succeeds and a failed construction is the invalid-version error (all 17 classes); "
+         "the print/re-construct round trip for generic, ebuild, alpine, gem, alpm, the semver family and nuget (the last two through a lemma that str(n) is a digit string of value n). For every version class the implementation is checked on the documented-"
          "grammar, near-pair, exhaustive small-alphabet, malformed and non-ASCII streams: validity vs constructor, error type, acceptance of grammar strings, round trip, whitespace "
          "and leading-v invariance; modelled classes are compared with their model string by string.",
     ref="6 (C11)", technique="Coq proof (two-path constructor models) for the modelled schemes + per-class stream evaluation and model correspondence",
-    note="PARTIAL in breadth (models for generic, legacy openssl, ebuild, alpine, deb). Round trips of structured printers are checked on the implementation only. Known finding: deb colon inside upstream. Non-ASCII input is outside the models.")
+    note="PARTIAL in breadth: no round-trip theorem for deb and rpm (each has a listed finding), legacy openssl/openssl, pypi (third-party printer), maven and conan (they keep the text); those round trips are checked on the implementation and against the models. Known findings: deb colon inside upstream; rpm 0:v1.0. Non-ASCII input is outside the models.")
 
 CHECKS["C18"] = dict(
     text="Theorems over the code-shaped model of semantic_version's next_major/next_minor/next_patch and of the SemVer precedence extended with the build tie-break (the order the "
@@ -163,14 +163,13 @@ CHECKS["C16"] = dict(
 CHECKS["C03"] = dict(
     text="Reference procedures written in Gallina from the published text or source of each ecosystem (coq/Ref: Debian Policy 5.6.12, rpm's rpmvercmp.c, PMS Algorithms 3.1-3.7, SemVer 2.0 "
          "section 11 as an inductive relation, the OPENSSL_VERSION_NUMBER order, pacman's version.c, Gem::Version, NuGet VersionComparer, Conan's documented rules, Maven ComparableVersion, PEP 440) and, "
-         "for deb, rpm, ebuild/alpine, the semver family, legacy openssl and gem, theorems that the code-shaped model of the univers code computes the reference on every input of the stated "
+         "for deb, rpm, ebuild/alpine, the semver family, legacy openssl, gem, maven and nuget, theorems that the code-shaped model of the univers code computes the reference on every input of the stated "
          "domain (deb: all strings of the characters the validity check admits, through a finite check that the transcribed characters_order table is order-isomorphic to the policy's modified "
          "ASCII; rpm: all strings, by simulation of the two loops; gentoo: all accepted texts, with a finite check of the suffix table; semver: all versions; legacy openssl: unbounded numbers, "
-         "finite patch grammar). The models are tied to /repo by the scheme correspondence; every reference, including those without a code-shaped model (alpm, nuget, conan, maven, pypi, openssl "
-         "dispatch), is run against the implementation on generated pairs (documentation shapes, grammar, near pairs with source-mined words, small alphabets).",
+         "finite patch grammar). The models are tied to /repo by the scheme correspondence; every reference, including those without such a theorem (alpm, conan, pypi), is run against the implementation on generated pairs (documentation shapes, grammar, near pairs with source-mined words, small alphabets).",
     ref="6 (C03)", technique="Coq proof (refinement of a code-shaped model to a reference procedure: simulation, order-isomorphism of tables, finite grammar sweeps) + reference/implementation correspondence",
-    note="PARTIAL in breadth: no theorem for alpm, nuget, conan, maven, pypi (third-party `packaging`) and the openssl legacy/3.x dispatch (their references are compared with the implementation on "
-         "generated pairs only). Known finding: alpm follows msys2's vercmp, which differs from pacman where separator runs do not line up. "
+    note="PARTIAL in breadth: no theorem for alpm (finding), conan and pypi (the third-party `packaging`; its model is the PEP 440 reference): their references are compared with the implementation on "
+         "generated pairs only; the nuget theorem is at the level of parsed values (the two parsers are compared by correspondence). Known finding: alpm follows msys2's vercmp, which differs from pacman where separator runs do not line up. "
          "Three defects found by this check were repaired by fix: commits (gentoo first component, openssl -pre, maven nested empty lists).")
 
 CHECKS["C06"] = dict(
